@@ -1,4 +1,4 @@
 def run(ctx):
     from . import factorize_proofs
 
-    return factorize_proofs.run(ctx, ["offset", "ravel2"])
+    return factorize_proofs.run(ctx, ["offset", "ravel2", "factorize_offset"])
